@@ -133,47 +133,47 @@ structure PState where
   /-- ranges overwritten in `ongoing` while still open (they stay in the part half-open) -/
   lost : List Pending
 
-/-- One element.  `checkTime = true` is `handle_slurs` (a stop kept from before is dropped when its
-    note starts before the starting note; a start is dropped when it starts after the stopping note),
-    `false` is `handle_tuplets`. -/
-def pairStep (checkTime : Bool) (s : PState) (m : Mark) : PState :=
+/-- One element, on `ongoing` alone: the new `ongoing`, the ranges completed, the ranges overwritten or dropped.
+    `checkTime = true` is `handle_slurs` (a stop kept from before is dropped when its note starts before the
+    starting note; a start is dropped when it starts after the stopping note), `false` is `handle_tuplets`. -/
+def pairCore (checkTime : Bool) (o : Ongoing) (m : Mark) : Ongoing × List (Nat × Nat) × List Pending :=
   let me := (m.note, m.time)
   if m.isStart then
-    match ofind (false, m.number) s.ongoing with
+    match ofind (false, m.number) o with
     | some p =>
-      let o := oerase (false, m.number) s.ongoing
+      let o' := oerase (false, m.number) o
       match p.stopNote with
       | some (e, te) =>
         if checkTime && decide (te < m.time) then
           -- rogue stop: dropped, the start is a fresh one (the dropped range is taken off the *start* point of
           -- its end note, where it is not registered, so it stays in the part half-open)
-          let lostOld := match ofind (true, m.number) o with | some q => [q] | none => []
-          { ongoing := oset (true, m.number) { startNote := some me, stopNote := none } o,
-            done := s.done, lost := s.lost ++ [p] ++ lostOld }
-        else
-          { ongoing := o, done := s.done ++ [(m.note, e)], lost := s.lost }
-      | none => { s with ongoing := o }
+          let lostOld := match ofind (true, m.number) o' with | some q => [q] | none => []
+          (oset (true, m.number) { startNote := some me, stopNote := none } o', [], [p] ++ lostOld)
+        else (o', [(m.note, e)], [])
+      | none => (o', [], [])
     | none =>
-      let lostOld := match ofind (true, m.number) s.ongoing with | some q => [q] | none => []
-      { ongoing := oset (true, m.number) { startNote := some me, stopNote := none } s.ongoing,
-        done := s.done, lost := s.lost ++ lostOld }
+      let lostOld := match ofind (true, m.number) o with | some q => [q] | none => []
+      (oset (true, m.number) { startNote := some me, stopNote := none } o, [], lostOld)
   else
-    match ofind (true, m.number) s.ongoing with
+    match ofind (true, m.number) o with
     | some p =>
-      let o := oerase (true, m.number) s.ongoing
+      let o' := oerase (true, m.number) o
       match p.startNote with
       | some (b, tb) =>
         if checkTime && decide (m.time < tb) then
-          let lostOld := match ofind (false, m.number) o with | some q => [q] | none => []
-          { ongoing := oset (false, m.number) { startNote := none, stopNote := some me } o,
-            done := s.done, lost := s.lost ++ lostOld }
-        else
-          { ongoing := o, done := s.done ++ [(b, m.note)], lost := s.lost }
-      | none => { s with ongoing := o }
+          let lostOld := match ofind (false, m.number) o' with | some q => [q] | none => []
+          (oset (false, m.number) { startNote := none, stopNote := some me } o', [], lostOld)
+        else (o', [(b, m.note)], [])
+      | none => (o', [], [])
     | none =>
-      let lostOld := match ofind (false, m.number) s.ongoing with | some q => [q] | none => []
-      { ongoing := oset (false, m.number) { startNote := none, stopNote := some me } s.ongoing,
-        done := s.done, lost := s.lost ++ lostOld }
+      let lostOld := match ofind (false, m.number) o with | some q => [q] | none => []
+      (oset (false, m.number) { startNote := none, stopNote := some me } o, [], lostOld)
+
+/-- one `<slur>`/`<tuplet>` element -/
+def pairStep (checkTime : Bool) (s : PState) (m : Mark) : PState :=
+  { ongoing := (pairCore checkTime s.ongoing m).1,
+    done := s.done ++ (pairCore checkTime s.ongoing m).2.1,
+    lost := s.lost ++ (pairCore checkTime s.ongoing m).2.2 }
 
 def pairAll (checkTime : Bool) (s : PState) (ms : List Mark) : PState := ms.foldl (pairStep checkTime) s
 
